@@ -1,7 +1,45 @@
-import KM.Driver.Core
-/-! Driver for C06 (stub until the property's model is built). -/
+import KM.Driver.AuthOps
+import KM.Model.Routes
+/-! Driver for C06: `ca <mask> <request shape>` ↦ outcome of `checkAuth`. -/
 namespace KM.Driver.C06
+open KM.Util KM.Auth KM.Driver.AuthOps
 
-def handler (_mode : String) : Option Handler := none
+def model : List String → String
+  | "ca" :: mask :: rest =>
+    match mask.toNat?, parseReq rest with
+    | some m, some p => outStr (checkAuth p.cfg p.req m)
+    | _, _ => "bad-op"
+  | _ => "bad-op"
+
+def modelOld : List String → String
+  | "ca" :: mask :: rest =>
+    match mask.toNat?, parseReq rest with
+    | some m, some p => outStr (checkAuthWith asFound p.cfg p.req m)
+    | _, _ => "bad-op"
+  | _ => "bad-op"
+
+/-- `rt <path> <webui csv|-> <request shape>` ↦ `deny` (every checkAuth of the route refuses this
+request, so no protected effect may happen) | `maybe` | `no-such-route` -/
+def route : List String → String
+  | "rt" :: path :: webui :: rest =>
+    match parseReq rest with
+    | some p =>
+      match KM.Gen.routes.find? (fun r => r.service && r.path == path.toList) with
+      | some r =>
+        let lvl := KM.Routes.webuiLevel (if webui == "-" then [] else (webui.splitOn ",").map String.toList)
+        if KM.Routes.deniedBy p.cfg lvl r p.req then "deny" else "maybe"
+      | Option.none => "no-such-route"
+    | Option.none => "bad-op"
+  | _ => "bad-op"
+
+def both : List String → String
+  | "ca" :: rest => model ("ca" :: rest)
+  | "rt" :: rest => route ("rt" :: rest)
+  | _ => "bad-op"
+
+def handler (mode : String) : Option Handler :=
+  if mode == "model" then some (.pure both)
+  else if mode == "model-asfound" then some (.pure modelOld)
+  else none
 
 end KM.Driver.C06
